@@ -37,6 +37,9 @@ T4 == Mk(<<-12, 1, -12>>, <<1, 1, 1>>, <<"height", "ok", "ok">>, NoTamper(3))
 \* four blocks: tampered block deep in the losing-then-winning branch
 T5 == Mk(<<-12, 1, -12, 3>>, <<1, 1, 1, 2>>, AllOk(4), <<FALSE, FALSE, TRUE, FALSE>>)
 T6 == Mk(<<-11, 1, 2, -12>>, <<1, 1, 1, 1>>, <<"ok", "exec", "ok", "ok">>, <<TRUE, FALSE, FALSE, FALSE>>)
-BadQ == {T1, T2, T3, T4}
-BadT == {T1, T2, T3, T4, T5, T6}
+\* an invalid block below the margin delivered by the download pid is first kept as a side block, fails in a
+\* reorganisation and is deleted from the index: its indexed child 2 dangles; 3 arrives as side / heavier block
+T7 == Mk(<<-10, 1, 2, -11, 4>>, <<1, 4, 1, 4, 4>>, <<"exec", "ok", "ok", "ok", "ok">>, NoTamper(5))
+BadQ == {T1, T2, T3, T4, T7}
+BadT == {T1, T2, T3, T4, T5, T6, T7}
 =============================================================================
